@@ -542,6 +542,12 @@ class Body:
                     for o in st["rv"]["ops"]:
                         if o["k"] in ("copy", "move"):
                             work.append((o["place"], d - 1))
+                if r[0] == "rv" and d > 0:
+                    rv = self.blocks[r[2]]["stmts"][r[3]]["rv"]
+                    for key in ("l", "r", "x", "op"):
+                        o = rv.get(key)
+                        if isinstance(o, dict) and o.get("k") in ("copy", "move"):
+                            work.append((o["place"], d - 1))
                 if r[0] == "call" and d > 0:
                     t = self.term(r[1])
                     for a in t["args"]:
